@@ -36,10 +36,16 @@ class Session:
         self.prog = copy.deepcopy(header)
         self.prog.setdefault("ops", [])
         self.prog.setdefault("pres", [])
-        self.tw = twin.Twin(self.prog)
         self.events = []
-        self.vol = [twin.proj_vol(lw, self.tw.unit) for lw in self.tw.lws]
         self.failed = False
+        self.broken = False
+        try:
+            self.tw = twin.Twin(self.prog)
+        except twin.CtorRejected:
+            # the (valid) labware cannot be constructed: the program stays empty and its trace reports C20.accept
+            self.tw, self.broken, self.vol = None, True, []
+            return
+        self.vol = [twin.proj_vol(lw, self.tw.unit) for lw in self.tw.lws]
 
     def do(self, op, pres=None):
         pres = pres or {}
@@ -56,8 +62,12 @@ class Session:
 
     def finish(self):
         """Re-run the recorded program from scratch so that the trace is exactly what a replay produces."""
-        self.tw.close()
+        self.close()
         return self.prog, twin.execute(self.prog)
+
+    def close(self):
+        if self.tw is not None:
+            self.tw.close()
 
 
 # ----------------------------------------------------------------------------- argument shapes
